@@ -1,5 +1,6 @@
 """C03 The binary image is a faithful window onto the assembled memory map."""
 from harness import asmcheck
+from checks import tracepart
 
 WHAT = ['status', 'image']
 KINDS = {'byte', 'fill', 'i3'}
@@ -35,6 +36,12 @@ def run(chk):
                 'predefined data block at 6..7) and checks WindowFaithful and MemIsUnmutedBytes on the specification; every '
                 'scenario is assembled by the real code with -s/-e/-f and the whole image compared byte for byte. '
                 'Non-trivial = contains a byte-producing line; distinct by (program, window).')
+    chk.rule += (' Code -> specification: the repository example programs (real ISAs, up to 36 KB images) and seeded random rich '
+                 'carrier programs are assembled with the verification hooks on; every recorded pass-1 / pass-2 event and the image read '
+                 'back from the .bin must be a behaviour of spec/Trace_Asm.tla (address = zone cursor | origin | AlignUp, size, cursor '
+                 'after, zone bounds, label value, stable sort order, bytes = reserved size, overlap check, window onto the unmuted '
+                 'bytes); corrupted traces must be rejected (self-test).')
     chk.assumptions = ['overlaps involving a muted line are left open and skipped (counted in skipped_open_cases)']
     chk.exhaustive = True
     asmcheck.run_instances(chk, instances(chk.tier), WHAT, KINDS)
+    tracepart.run_traces(chk, 'C03', windows=True)
